@@ -36,8 +36,9 @@ TRUSTED = [
     'CPython datetime semantics as modelled: datetime() range checks, naive astimezone() = attach off_local / go to UTC / '
     'come back with off_utc, fromisoformat on texts matching _R_DATETIME, timedelta arithmetic exact on integral floats below 2^53',
     'the float arithmetic of _datetime_new on integral floats (// - * +) is exact below 2^53 (script numbers are floats; the model is over Z)',
-    'the float path of datetime - datetime (total_seconds()*1000 rounded) is modelled in SpecFloat (dt_sub_float) and tied by the '
-    'correspondence only; the proved statement C16_add_sub is about the exact integer difference (C16_sub_rounding_partial)',
+    'the float path of datetime - datetime (total_seconds()*1000 rounded) is modelled in SpecFloat (dt_sub_float: stdlib '
+    'SpecFloat division/multiplication/addition at binary64) and tied to the implementation by the correspondence; about that '
+    'model C16_sub_rounding / C16_sub_rounding_in_range prove (d+n)-d = n for all datetimes (Z-only rounding-error analysis, no axioms)',
     'harness/c16.py references: Python datetime/timedelta arithmetic, Python astimezone() in the process zone for existence and offsets, '
     'zoneinfo for parsing; the tz database of the sandbox (/usr/share/zoneinfo)',
 ]
